@@ -22,6 +22,13 @@ func genPool(r *rand.Rand, n int, oracle bool, fee math.LegacyDec) (ammtypes.Poo
 	ws := []int64{}
 	tw := int64(0)
 	equal := r.Intn(2) == 0
+	// 18-decimal assets: reserves far above 1e18 base units in a third of the pools. The all-asset
+	// join / exit arithmetic rounds in a fixed direction, so its one-unit verdicts hold at any
+	// magnitude; only the power-approximation paths are restricted to reserves <= 1e18 (see below).
+	maxExp := 17.0
+	if r.Intn(3) == 0 {
+		maxExp = 29.0
+	}
 	for i := 0; i < n; i++ {
 		w := int64(1)
 		if !equal {
@@ -29,7 +36,7 @@ func genPool(r *rand.Rand, n int, oracle bool, fee math.LegacyDec) (ammtypes.Poo
 		}
 		ws = append(ws, w)
 		tw += w
-		assets = append(assets, ammtypes.PoolAsset{Token: sdk.NewCoin(denomsABCD[i], math.NewIntFromBigInt(logUniform(r, 17))), Weight: math.NewInt(w), ExternalLiquidityRatio: math.LegacyOneDec()})
+		assets = append(assets, ammtypes.PoolAsset{Token: sdk.NewCoin(denomsABCD[i], math.NewIntFromBigInt(logUniform(r, maxExp))), Weight: math.NewInt(w), ExternalLiquidityRatio: math.LegacyOneDec()})
 	}
 	shares := new(big.Int).Mul(logUniform(r, 8), new(big.Int).Exp(big.NewInt(10), big.NewInt(int64(10+r.Intn(10))), nil))
 	return ammtypes.Pool{PoolId: 1, PoolParams: ammtypes.PoolParams{UseOracle: oracle, SwapFee: fee}, TotalWeight: math.NewInt(tw), TotalShares: sdk.NewCoin("amm/pool/1", math.NewIntFromBigInt(shares)), PoolAssets: assets}, ws
@@ -131,6 +138,9 @@ func init() {
 			s := new(big.Int).Mul(S, big.NewInt(int64(1+r.Intn(9999))))
 			s.Div(s, big.NewInt(int64(10000*(1+r.Intn(1000)))))
 			switch r.Intn(8) {
+			case 3: // a ratio that does not terminate in 18 decimals (k/3, k/7, k/9 of the supply)
+				den := []int64{3, 7, 9, 11}[r.Intn(4)]
+				s = new(big.Int).Div(new(big.Int).Mul(S, big.NewInt(1+int64(r.Intn(int(den-1))))), big.NewInt(den))
 			case 0:
 				s = new(big.Int).Sub(S, big.NewInt(int64(1+r.Intn(3))))
 			case 1:
@@ -171,6 +181,15 @@ func init() {
 				}
 			}
 			// ---- single-asset join of a weighted pool: V/S (V = prod B_i^{w_i}) must not decrease
+			big18 := false
+			for _, b := range B {
+				if b.BitLen() > 60 {
+					big18 = true
+				}
+			}
+			if big18 {
+				continue // power-approximation path: verdicts only for reserves <= 1e18
+			}
 			j := r.Intn(na)
 			x := new(big.Int).Mul(B[j], big.NewInt(int64(1+r.Intn(2000))))
 			x.Div(x, big.NewInt(int64(1+r.Intn(100000))))
@@ -195,9 +214,14 @@ func init() {
 				for k := range allow {
 					allow[k] = big.NewInt(0)
 				}
-				al := new(big.Int).Div(B[j], big.NewInt(100_000_000))
-				allow[j] = al.Add(al, big.NewInt(1))
-				if !ref.ValueNotDecreased(B, after, ws, S, bi(pj.TotalShares.Amount), allow) {
+				// rounding: one base unit of the deposited asset; power approximation: the new share
+				// supply S' = S * (1+x/B)^w is known to 1e-8 relative precision (the property's stated
+				// allowance), so S' is lowered by S'/1e8 before comparing.
+				allow[j] = big.NewInt(1)
+				sAfter := bi(pj.TotalShares.Amount)
+				sAdj := new(big.Int).Sub(sAfter, new(big.Int).Div(sAfter, big.NewInt(100_000_000)))
+				sAdj.Sub(sAdj, big.NewInt(1))
+				if !ref.ValueNotDecreased(B, after, ws, S, sAdj, allow) {
 					ps.viol("C05", "C05.single_join_value_per_share", "join_single", fmt.Sprintf("reserves %v weights %v S=%s fee %s: single-asset join of %s %s minted %s shares; the per-share value prod(B^w)/S of the liquidity left behind decreased", B, ws, S, fee, x, denomsABCD[j], shares))
 				}
 				if i%1200 == 0 {
